@@ -118,7 +118,18 @@ def installed(tape):
     real = R.random
     fake = TapeModule(tape)
     R.random = fake
+    # a generator object of its own (random.Random()) kept by the module or by the Random class is
+    # scripted as well: the tape offers the same methods
+    import random as _random
+    swapped = []
+    for holder in [R] + [c for c in R.__dict__.values() if isinstance(c, type)]:
+        for name, obj in list(vars(holder).items()):
+            if isinstance(obj, _random.Random):
+                swapped.append((holder, name, obj))
+                setattr(holder, name, fake)
     try:
         yield fake
     finally:
         R.random = real
+        for holder, name, obj in swapped:
+            setattr(holder, name, obj)
